@@ -318,11 +318,17 @@ def verify_to_dict(cls, fn_ast, namespace, p: PPoint, levels, passed, timeout_ms
         ex.inline = inline
     spec_hyps = []
     # preconditions on a conforming instance: hole serialisation and isnan do not raise
-    ex.assume_hasattr = True
+    ex.assume_hasattr = not getattr(p, "conforming_classes", False)
+    if getattr(p, "conforming_classes", False):
+        # union packing: which member's packer runs depends on the class of the value; a method call
+        # raises AttributeError iff the class lacks the method and is otherwise total; builtin str is total
+        ex.nonraising_prefixes = ("",)
+        ex.nonraising.add(_const_key(str))
     ex.nonraising.add(("meth", "copy"))
     ex.nonraising.add(("meth", "_serialize"))
     ex.nonraising.add(("meth", "__mashumaro_to_dict__"))
-    ex.nonraising_prefixes = ("__mashumaro_to_dict",)
+    if not getattr(p, "conforming_classes", False):
+        ex.nonraising_prefixes = ("__mashumaro_to_dict",)
     if unwrap is not None and getattr(unwrap, "encoder", None) is not None:
         ex.nonraising.add(_const_key(unwrap.encoder))  # A8: the format encoder is outside the claim
     ex.nonraising.add(_const_key(math.isnan))
@@ -346,6 +352,15 @@ def verify_to_dict(cls, fn_ast, namespace, p: PPoint, levels, passed, timeout_ms
         a = eng.func(f"attr!{fv.name}", eng.V, eng.V)(self_c)
         if not fv.nullable:
             pre.append(a != eng.const(None))
+    if getattr(p, "conforming_classes", False):
+        import typing_extensions
+
+        hints = typing_extensions.get_type_hints(cls, include_extras=True)
+        for fv in view:
+            ks = _member_classes(hints[fv.name])
+            if ks:
+                a = eng.func(f"attr!{fv.name}", eng.V, eng.V)(self_c)
+                pre.append(z3.Or(*[eng.typeof(a) == eng.const(k) for k in ks]))
     paths = ex.run(fn_ast, args, pc=pre)
     if unwrap is not None:
         # format methods: the result must be encoder(<mapping>, <declared encoder kwargs>)
@@ -455,6 +470,41 @@ def verify_to_dict(cls, fn_ast, namespace, p: PPoint, levels, passed, timeout_ms
     return {"verdicts": verdicts, "paths": len(paths), "cover": cover, "queries": prover.queries,
             "solver_s": prover.time_s, "engine": eng, "trusted": sorted(eng.trusted), "flagvals": flagvals,
             "self": self_c, "entries": entries}
+
+
+def _member_classes(t):
+    """exact classes a conforming value of annotation t can have (None if not enumerable)"""
+    from . import ref as _ref
+
+    t = _ref.strip(t)
+    o = typing.get_origin(t)
+    import types as _types
+    import typing_extensions as _te
+
+    if o in (typing.Union, _types.UnionType):
+        out = []
+        for a in typing.get_args(t):
+            ks = _member_classes(a)
+            if ks is None:
+                return None
+            out += ks
+        return out
+    if o in (typing.Literal, _te.Literal):
+        out = []
+        for v in typing.get_args(t):
+            if typing.get_origin(v) in (typing.Literal, _te.Literal):
+                out += _member_classes(v)
+            else:
+                out.append(type(v))
+        return out
+    if t is type(None) or t is None:
+        return [type(None)]
+    if t is typing.Any:
+        return None
+    k = o or t
+    if isinstance(k, type) and o is None:
+        return [k]
+    return None
 
 
 def _param_default(fn_ast, name):
